@@ -305,6 +305,18 @@ func Generate(r *rand.Rand, o GenOpts) (*Doc, map[string]int) {
 		}
 		d.Paths = append(d.Paths, p)
 	}
+	if len(o.Tags) > 0 && r.Intn(2) == 0 {
+		// a tags section that declares only some of the tags in use (and possibly one nobody uses)
+		for _, t := range o.Tags {
+			if r.Intn(2) == 0 {
+				d.TagsSection = append(d.TagsSection, t)
+			}
+		}
+		if r.Intn(3) == 0 {
+			d.TagsSection = append(d.TagsSection, "declared-only")
+		}
+		g.PosCount["document:tags-section"]++
+	}
 	fixParamNames(d)
 	if o.Tame {
 		dedupeParams(d)
